@@ -1246,7 +1246,8 @@ impl Universe {
             if matches!(nr, libc::SYS_openat | libc::SYS_openat2 | libc::SYS_open) {
                 if let (Some((fl, _)), Some(d), Some(p)) = (ev.oflags, &ev.dir, &ev.path) {
                     let fl = fl as i32;
-                    if fl & (libc::O_PATH | libc::O_NONBLOCK) == 0 && !p.contains(&b'/') {
+                    // (O_DIRECTORY on a fifo fails with ENOTDIR before the fifo's open method runs)
+                    if fl & (libc::O_PATH | libc::O_NONBLOCK | libc::O_DIRECTORY) == 0 && !p.contains(&b'/') {
                         if let Ok(st) = sys::fstatat(d.fd, p, libc::AT_SYMLINK_NOFOLLOW) {
                             if st.st_mode & libc::S_IFMT == libc::S_IFIFO {
                                 out.harness_error = Some(format!("blocking open of a fifo requested: {}", ev.render(&out.tids, self.pid)));
